@@ -181,11 +181,19 @@ class HedGroup:
                 group_list.append((child, child._sorted(update_self)))
 
         tag_list.sort(key=lambda x: str(x[0]))
-        group_list.sort(key=lambda x: str(x[0]))
+        # Order groups by their sorted contents first, not only by their text as written, so that equal groups
+        # end up adjacent whatever the order of their members.
+        group_list.sort(key=lambda x: (self._sorted_key(x[1]), str(x[0])))
         output_list = tag_list + group_list
         if update_self:
             self.children = [x[0] for x in output_list]
         return [x[1] for x in output_list]
+
+    @staticmethod
+    def _sorted_key(sorted_children):
+        """ Return the text of an already sorted list of tags and (nested lists of) groups. """
+        return "(" + ",".join(str(child) if isinstance(child, HedTag) else HedGroup._sorted_key(child)
+                              for child in sorted_children) + ")"
 
     @property
     def is_group(self):
